@@ -46,6 +46,7 @@ type vfOutbox struct {
 	sendRes  Activity
 	fresh    []string // recipient / actor IRIs of the activity level (pairwise distinct)
 	freshB   []string // recipient IRIs of the object level (pairwise distinct; may alias the activity's for the same property)
+	cross    bool     // object-level recipients may alias each other ACROSS addressing properties (the same IRI in to and cc)
 }
 
 // distinctIDs: the ids of the request are pairwise distinct and differ from the
@@ -59,7 +60,16 @@ func (o *vfOutbox) distinctIDs() {
 	}
 	vfDistinct(all)
 	w.distinctPool = all
-	if len(o.freshB) > 0 {
+	if len(o.freshB) > 0 && o.cross {
+		for _, f := range o.freshB {
+			allB := []string{w.actorIRI.String(), w.inboxIRI.String(), w.outboxIRI.String(),
+				"https://www.w3.org/ns/activitystreams#Public", "as:Public", "Public", f}
+			for _, u := range w.outboxItems {
+				allB = append(allB, u.String())
+			}
+			vfDistinct(allB)
+		}
+	} else if len(o.freshB) > 0 {
 		allB := append([]string{w.actorIRI.String(), w.inboxIRI.String(), w.outboxIRI.String(),
 			"https://www.w3.org/ns/activitystreams#Public", "as:Public", "Public"}, o.freshB...)
 		for _, u := range w.outboxItems {
@@ -75,7 +85,7 @@ func (o *vfOutbox) distinctIDs() {
 		inboxes = append(inboxes, vfUFIRI("inboxOf", f))
 	}
 	vfDistinct(inboxes)
-	if len(o.freshB) > 0 {
+	if len(o.freshB) > 0 && !o.cross {
 		inboxesB := []string{}
 		if si := w.senderInbox(); si != nil {
 			inboxesB = append(inboxesB, si.String())
@@ -101,7 +111,7 @@ func (o *vfOutbox) addr(tree map[string]interface{}, mask int, tag string, share
 				// (overlapping recipient sets: decided by the solver); distinct from all others
 				o.freshB = append(o.freshB, id)
 				for j := range vfAddrProps {
-					if j != i && len(share[j]) > 0 {
+					if j != i && len(share[j]) > 0 && !o.cross {
 						vfDistinct([]string{id, share[j][0]})
 					}
 				}
